@@ -321,8 +321,9 @@ func checkGeneratedModes(c *Ctx, r *Report) {
 
 func checkC09(c *Ctx, r *Report) {
 	checkGeneratedModes(c, r)
-	r.Rules = []string{"S1 slot<->field table per format equals the statement's", "S2 each slot guarded by non-emptiness of its own field", "S3 bytes flow unmodified from the file read to the slot", "S4 mode constants", "S5 rpmpack scriptlet tags (thorough)"}
+	r.Rules = []string{"S1 slot<->field table per format equals the statement's", "S2 each slot guarded by non-emptiness of its own field", "S3 bytes flow unmodified from the file read to the slot", "S4 mode constants", "S5 rpmpack scriptlet tags (thorough)", "S6 script buffers are fresh", "S7 a configured script must-reaches its slot", "S4-const modes of generated members depend on no configuration value"}
 	r.Explanation = "Table extraction and field provenance over go/ssa. For every packager the places where a script-path field of the configuration is bound to a slot name are extracted (constant-keyed map updates, struct-literal rows, rpmpack Add* calls) and the resulting (slot, field) relation is compared with the table transcribed from the statement — equality, so a missing, extra or cross-wired slot is a violation and every one of the 15 script fields is accounted for in exactly the formats that own it. Each consumer (the read of the script file) must be dominated by a non-emptiness test of a value with the same script-field provenance (populated iff configured). The bytes that reach the archive writer or the rpmpack slot derive from the file read through conversions only — any other function on that path is a violation. Lifecycle script modes are the stated constants. All subsets of configured scripts are covered because each slot is decided independently of the others."
+	r.Explanation += " (S6) buffers that receive script bytes are fresh or reset. (S7) with only one script configured its slot binding is must-reached from Package. (S4-const) the mode of every member a packager generates itself has no configuration atom in its provenance."
 	r.Assumptions = []string{
 		"rpmpack's AddPrein/AddPostin/AddPreun/AddPostun/AddPretrans/AddPosttrans/AddVerifyScript fill the like-named scriptlet tags (thorough tier checks the tag numbers)",
 		"binary safety is argued from the absence of any transformation on the path, not tested on concrete bytes",
